@@ -97,13 +97,15 @@ def lookupF (s : String) : List (String × Ty) → Option Ty
   | (k, t) :: fs => if k = s then some t else lookupF s fs
 
 section
-variable (sub : ClassId → ClassId → Bool)
+variable (sub : ClassId → ClassId → Bool) (ao : Bool)
 
 mutual
 /-- The reference conformance oracle: does value `v` belong to type `t`?
-    `sub c d` is `issubclass(c, d)`. -/
+    `sub c d` is `issubclass(c, d)`.  `ao` is the reading of `Any`: `true` = the usual one (Any admits
+    everything), `false` = the *tight* reading (Any admits nothing, so `List[Any]` admits only the empty
+    list — which is what an inferred `C[Any]` stands for before any rewriter has run). -/
 def conforms : Ty → Val → Bool
-  | .any, _ => true
+  | .any, _ => ao
   | .cls d, v => sub v.classOf d
   | .typeOf d, .classObj c => sub c d
   | .typeOf _, _ => false
